@@ -188,6 +188,27 @@ def make_receivers(seed):
     R["MPS_NOBOND"] = mps_nobond
     edges = [(0, 1), (1, 2), (2, 0), (2, 3)]
     R["GENV"] = lambda: qtn.TN_from_edges_rand(edges, D=2, phys_dim=2, seed=int(rng.integers(1 << 30)))
+    # arbitrary-geometry operator (upper "k{}" / lower "b{}" index per site), same graph as GENV
+    R["GENO"] = lambda: qtn.TN_from_edges_rand(edges, D=2, phys_dim=2, seed=int(rng.integers(1 << 30)), site_ind_id=("k{}", "b{}"))
+    R["PEPO"] = lambda: qtn.PEPO.rand(2, 2, 2, seed=int(rng.integers(1 << 30)))
+    R["TN2D4"] = lambda: qtn.TN2D_rand(4, 4, 2, seed=int(rng.integers(1 << 30)))
+    R["TN3D322"] = lambda: qtn.TN3D_rand(3, 2, 2, 2, seed=int(rng.integers(1 << 30)))
+    def tree():
+        # a tree (no loops) with open legs on every tensor and bonds large enough that max_bond=2 really truncates
+        ts = [qtn.Tensor(ints(rng, (2, 3)), ("a", "b"), tags=["A", "X"]),
+              qtn.Tensor(ints(rng, (3, 4, 3, 2)), ("b", "c", "d", "p"), tags=["B", "X"]),
+              qtn.Tensor(ints(rng, (4, 2, 2)), ("c", "e", "f"), tags=["C", "Y"]),
+              qtn.Tensor(ints(rng, (3, 2)), ("d", "g"), tags=["D", "Y"]),
+              qtn.Tensor(ints(rng, (2, 2)), ("e", "h"), tags=["E", "Y"])]
+        return qtn.TensorNetwork(ts)
+    R["TREE"] = tree
+    def tn_iso():
+        # every tensor carries `left_inds` (what TensorNetwork.isometrize / unitize require)
+        ts = [qtn.Tensor(ints(rng, (2, 3)) + 4 * np.eye(2, 3), ("a", "b"), tags=["A", "X"], left_inds=("b",)),
+              qtn.Tensor(ints(rng, (3, 2, 2)), ("b", "c", "d"), tags=["B", "X"], left_inds=("b", "d")),
+              qtn.Tensor(ints(rng, (2, 2, 2)), ("c", "e", "f"), tags=["C", "Y"], left_inds=("e", "f"))]
+        return qtn.TensorNetwork(ts)
+    R["TN_ISO"] = tn_iso
     return R, rng
 
 
@@ -259,7 +280,6 @@ def recipes():
     add("hyperinds_resolve", ["TN"], lambda r, x: ((), {}))
     add("view_as", ["TN"], lambda r, x: ((qtn.TensorNetwork,), {}))
     add("drape_bond_between", ["TN"], lambda r, x: ((["A"], ["B"], ["C"]), {}))
-    add("isometrize", ["TN"], lambda r, x: ((), {"method": "qr"}))
     add("contract_around", ["TN"], lambda r, x: ((["A"],), {}))
     # ---- 1D
     add("add_MPS", ["MPS"], lambda r, x: ((x.copy() * 2.0,), {}))
@@ -308,6 +328,110 @@ def recipes():
     add("align", ["GENV"], lambda r, x: ((x.H,), {"ind_ids": ["u{}", "v{}"]}))
     add("align", ["PEPS"], lambda r, x: ((x.H,), {"ind_ids": ["u{},{}", "v{},{}"]}))
     add("reindex_all", ["GENV"], lambda r, x: (("z{}",), {}))
+    # ---- pairs added in the coverage round (arguments in the documented domain; every randomised method gets a seed)
+    sd = lambda r: int(r.integers(1 << 30))
+    add("to", ["T", "TN", "MPS"], lambda r, x: ((), {"dtype": "complex64"}))
+    add("to", ["T", "TN"], lambda r, x: (("numpy-float32",), {}))
+    add("rand_reduce", ["T"], lambda r, x: (("b",), {"seed": sd(r)}))
+    add("randomize", ["T", "TN", "MPS"], lambda r, x: ((), {"seed": sd(r)}))
+    add("randomize", ["TN"], lambda r, x: ((), {"seed": sd(r), "dtype": "complex128"}))
+    add("unitize", ["T"], lambda r, x: ((["a"],), {"method": "qr"}))
+    add("unitize", ["ISO"], lambda r, x: ((), {"method": "svd"}))
+    add("unitize", ["TN_ISO"], lambda r, x: ((), {"method": "qr"}))
+    add("isometrize", ["TN_ISO"], lambda r, x: ((), {"method": "qr"}))
+    add("isometrize", ["TN"], lambda r, x: ((), {"method": "qr", "allow_no_left_inds": True}))
+    add("view_like", ["TN"], lambda r, x: ((qtn.TN_from_edges_rand([(0, 1), (1, 2)], D=2, seed=sd(r)),), {}))
+    add("compress_all_tree", ["TREE", "MPS"], lambda r, x: ((), {"max_bond": 2}))
+    add("compress_all_1d", ["TREE", "MPS"], lambda r, x: ((), {"max_bond": 2}))
+    add("compress_all_1d", ["TREE"], lambda r, x: ((), {"max_bond": 2, "canonize": False}))
+    add("compress_all_simple", ["TN", "TREE", "PEPS"], lambda r, x: ((), {"max_bond": 2}))
+    add("compress_simplify", ["TN", "TREE"], lambda r, x: ((), {}))
+    add("compress_simplify", ["TN"], lambda r, x: ((), {"output_inds": ("d", "f"), "final_resolve": True}))
+    add("contract_compressed", ["TN"], lambda r, x: (([(0, 1), (0, 1), (0, 1)],), {"max_bond": 4}))
+    add("contract_compressed", ["TN"], lambda r, x: (([(2, 3), (0, 1), (0, 1)],), {"max_bond": 4, "output_inds": ("f", "d"), "preserve_tensor": True}))
+    add("contract_compressed", ["TN2D"], lambda r, x: (("greedy",), {"max_bond": 16}))
+    add("fit", ["TREE"], lambda r, x: ((x.copy().randomize_(seed=sd(r)),), {"method": "tree", "steps": 3}))
+    add("fit", ["TREE"], lambda r, x: ((x.copy().randomize_(seed=sd(r)),), {"method": "als", "steps": 3}))
+    add("fit", ["MPS"], lambda r, x: ((qtn.MPS_rand_state(4, 2, seed=sd(r), dtype="complex128"),), {"method": "als", "steps": 2}))
+    gate_t = lambda r: qtn.Tensor(ints(r, (2, 2, 2, 2)), ("o1", "o2", "i1", "i2"), tags=["G"])
+    add("gate_inds_with_tn", ["TN"], lambda r, x: ((["d", "f"], gate_t(r), ["i1", "i2"], ["o1", "o2"]), {}))
+    # an index that is not on the network: the gate's inner and outer label are both kept (documented case)
+    add("gate_inds_with_tn", ["TN"], lambda r, x: ((["d", "zz"], gate_t(r).as_network(), ["i1", "i2"], ["o1", "o2"]), {}))
+    add("gate_sandwich_inds", ["TN"], lambda r, x: ((ints(r, (2, 2), True), ["d"], ["f"]), {}))
+    add("gate_sandwich_inds", ["TN"], lambda r, x: ((ints(r, (2, 2), True), ["d"], ["f"]), {"contract": True, "dagger": True}))
+    add("gate_sandwich_inds", ["GENO"], lambda r, x: ((ints(r, (4, 4), True), ["k0", "k1"], ["b0", "b1"]), {"contract": "split"}))
+    add("gauge_all", ["TN"], lambda r, x: ((), {}))
+    add("gauge_all", ["TN"], lambda r, x: (("simple",), {"max_iterations": 3}))
+    add("gauge_all", ["TN"], lambda r, x: (("bp",), {"max_iterations": 3}))
+    add("gauge_all", ["TN"], lambda r, x: (("random",), {"seed": sd(r)}))
+    add("gauge_all_belief_propagation", ["TN", "TREE", "PEPS"], lambda r, x: ((), {"max_iterations": 3}))
+    add("gauge_all_random", ["TN", "MPS"], lambda r, x: ((), {"seed": sd(r)}))
+    add("gauge_all_random", ["TN"], lambda r, x: ((), {"seed": sd(r), "unitary": False, "max_iterations": 2}))
+    add("gauge_local", ["TN", "TREE"], lambda r, x: ((["A"],), {}))
+    add("gauge_local", ["TN"], lambda r, x: ((["A"],), {"method": "simple", "max_distance": 2}))
+    add("gauge_local", ["TN"], lambda r, x: ((["A"],), {"method": "bp"}))
+    add("gauge_local", ["TN"], lambda r, x: ((["B", "Y"],), {"which": "any", "method": "random", "seed": sd(r)}))
+    add("insert_compressor_between_regions", ["TN"], lambda r, x: ((["A", "B"], ["C", "D"]), {"max_bond": 2, "new_tags": "P"}))
+    add("insert_compressor_between_regions", ["TN"], lambda r, x: ((["A", "B"], ["C", "D"]), {"max_bond": 2, "mode": "nystrom"}))
+    add("insert_compressor_between_regions", ["TN2D"], lambda r, x: ((["X0"], ["X1"]), {"max_bond": 4}))
+    # ---- 1D operators / MPS with MPO
+    add("gate_with_mpo", ["MPS"], lambda r, x: ((qtn.MPO_rand_herm(4, 2, seed=sd(r)),), {}))
+    add("gate_with_mpo", ["MPS"], lambda r, x: ((qtn.MPO_rand_herm(4, 2, seed=sd(r)),), {"method": "zipup", "max_bond": 4, "transpose": True}))
+    submpo = lambda r: qtn.MatrixProductOperator([ints(r, (2, 2, 2)), ints(r, (2, 2, 2))], sites=[1, 2], L=4)
+    add("gate_with_submpo", ["MPS"], lambda r, x: ((submpo(r),), {}))
+    add("gate_with_submpo", ["MPS"], lambda r, x: ((submpo(r),), {"method": "lazy"}))
+    add("gate_with_submpo", ["MPS"], lambda r, x: ((submpo(r),), {"where": (1, 2), "max_bond": 3, "transpose": True}))
+    add("gate_sandwich_with_auto_swap", ["MPO"], lambda r, x: ((CN, (0, 3)), {}))
+    add("gate_sandwich_with_auto_swap", ["MPO"], lambda r, x: ((CN, (2, 1)), {"dagger": True}))
+    add("reindex_lower_sites", ["MPO"], lambda r, x: (("q{}",), {}))
+    add("reindex_upper_sites", ["MPO"], lambda r, x: (("q{}",), {"where": slice(1, 3)}))
+    add("reindex_lower_sites", ["PEPO"], lambda r, x: (("q{},{}",), {"where": [(0, 0), (1, 1)]}))
+    add("reindex_upper_sites", ["PEPO"], lambda r, x: (("q{},{}",), {}))
+    add("reindex_lower_sites", ["GENO"], lambda r, x: (("q{}",), {"where": [0, 2]}))
+    add("reindex_upper_sites", ["GENO"], lambda r, x: (("q{}",), {}))
+    add("add_PEPO", ["PEPO"], lambda r, x: ((qtn.PEPO.rand(2, 2, 2, seed=sd(r)),), {}))
+    # ---- arbitrary-geometry operators
+    geno = lambda r: qtn.TN_from_edges_rand([(0, 1), (1, 2), (2, 0), (2, 3)], D=2, phys_dim=2, seed=sd(r), site_ind_id=("k{}", "b{}"))
+    genv = lambda r: qtn.TN_from_edges_rand([(0, 1), (1, 2), (2, 0), (2, 3)], D=2, phys_dim=2, seed=sd(r))
+    add("apply", ["GENO"], lambda r, x: ((genv(r),), {}))
+    add("apply", ["GENO"], lambda r, x: ((geno(r),), {}))
+    add("apply", ["GENO"], lambda r, x: ((genv(r),), {"contract": False}))
+    add("apply", ["MPO"], lambda r, x: ((qtn.MPS_rand_state(4, 2, seed=sd(r)),), {}))
+    add("gate_upper", ["GENO"], lambda r, x: ((X, 1), {}))
+    add("gate_upper", ["GENO"], lambda r, x: ((CN, (0, 3)), {"contract": "split"}))
+    add("gate_lower", ["GENO"], lambda r, x: ((CN, (0, 1)), {}))
+    add("gate_lower", ["GENO"], lambda r, x: ((X, 2), {"contract": True, "transpose": True}))
+    add("gate_sandwich", ["GENO"], lambda r, x: ((CN, (0, 1)), {}))
+    add("gate_sandwich", ["GENO"], lambda r, x: ((ints(r, (4, 4), True), (1, 2)), {"contract": "split", "dagger": True}))
+    add("gate_sandwich", ["GENO"], lambda r, x: ((ints(r, (2, 2), True), 3), {"contract": True, "propagate_tags": "register"}))
+    add("gate_upper_with_op_lazy", ["GENO"], lambda r, x: ((geno(r),), {}))
+    add("gate_upper_with_op_lazy", ["GENO"], lambda r, x: ((geno(r),), {"transpose": True}))
+    add("gate_lower_with_op_lazy", ["GENO"], lambda r, x: ((geno(r),), {}))
+    add("gate_lower_with_op_lazy", ["GENO"], lambda r, x: ((geno(r),), {"transpose": True}))
+    add("gate_sandwich_with_op_lazy", ["GENO"], lambda r, x: ((geno(r),), {}))
+    add("gate_sandwich_with_op_lazy", ["GENO"], lambda r, x: ((geno(r),), {"dagger": True}))
+    add("partial_transpose", ["GENO"], lambda r, x: (([0, 2],), {}))
+    add("partial_transpose", ["GENO", "MPO"], lambda r, x: ((1,), {}))
+    add("gate_with_op_lazy", ["GENV"], lambda r, x: ((geno(r),), {}))
+    add("gate_with_op_lazy", ["GENV"], lambda r, x: ((geno(r),), {"transpose": True}))
+    add("gate_with_op_lazy", ["MPS"], lambda r, x: ((qtn.MPO_rand_herm(4, 2, seed=sd(r)),), {}))
+    # ---- 2D / 3D boundary, CTMRG, HOTRG (bond caps large enough that nothing is truncated: plain, in-place and the
+    # axis-permuted twin must then agree to rounding)
+    add("contract_boundary_from", ["TN2D"], lambda r, x: (((0, 1), (0, 2), "xmin"), {"max_bond": 8}))
+    add("contract_boundary_from", ["TN2D"], lambda r, x: (((0, 2), (1, 2), "ymax"), {"max_bond": 8, "canonize": False}))
+    add("contract_boundary_from_xmax", ["TN2D"], lambda r, x: (((1, 2),), {"max_bond": 8}))
+    add("contract_boundary_from_ymin", ["TN2D"], lambda r, x: (((0, 1),), {"max_bond": 8}))
+    add("contract_ctmrg", ["TN2D", "TN2D4"], lambda r, x: ((), {"max_bond": 8}))
+    add("contract_ctmrg", ["TN2D4"], lambda r, x: ((), {"max_bond": 8, "final_contract": False}))
+    add("contract_mps_sweep", ["TN2D"], lambda r, x: ((), {"max_bond": 8}))
+    add("contract_mps_sweep", ["TN2D"], lambda r, x: ((), {"max_bond": 8, "direction": "ymax", "final_contract": False}))
+    add("coarse_grain_hotrg", ["TN2D"], lambda r, x: (("x",), {"max_bond": 4}))
+    add("coarse_grain_hotrg", ["TN2D4"], lambda r, x: (("y",), {"max_bond": 4}))
+    add("coarse_grain_hotrg", ["TN3D", "TN3D322"], lambda r, x: (("x",), {"max_bond": 4}))
+    add("coarse_grain_hotrg", ["TN3D"], lambda r, x: (("z",), {"max_bond": 4, "lazy": True}))
+    add("contract_boundary_from", ["TN3D322"], lambda r, x: (((0, 1), (0, 1), (0, 1), "xmin"), {"max_bond": 4}))
+    add("contract_ctmrg", ["TN3D", "TN3D322"], lambda r, x: ((), {"max_bond": 4}))
+    add("contract_ctmrg", ["TN3D322"], lambda r, x: ((), {"max_bond": 4, "final_contract": False}))
     return S
 
 
@@ -470,10 +594,58 @@ def tensor_ids(v):
 
 OUT_PARAMS = {"expand_bond_dimension": {"bra"}, "gate_simple": {"gauges"}}
 
+# Randomised methods. Every recipe passes a fixed `seed` argument where the method accepts one, so that the plain and
+# the in-place spelling draw the same numbers and stay comparable. Two residual cases:
+#  * GLOBAL_SEEDED: the method draws from quimb's global generator and offers no seed argument
+#    (insert_compressor_between_regions(mode="nystrom") builds its sketch with rand_tensor): the harness re-seeds the
+#    public global generator (quimb.seed_rand) with the same value before each of the three calls.
+#  * AXIS_ORDER_DRAWS: `randomize` fills each stored array with iid numbers in storage order; the twin whose tensors
+#    store their axes in another order therefore holds the same numbers under other labels (equal in distribution
+#    only). Its axis-order comparison is skipped; non-mutation and plain-vs-in-place are still checked.
+#  * RANDOMISED: methods whose two spellings cannot be made to draw the same numbers at all: only the non-mutation
+#    part is checked for them (currently empty: seeding made every exercised method reproducible).
+GLOBAL_SEEDED = {"insert_compressor_between_regions"}
+AXIS_ORDER_DRAWS = {"randomize"}
+RANDOMISED = set()
+# approximate / iterative contractions: plain vs axis-permuted twin agree to rounding of an SVD-based pipeline only
+LOOSE_AXIS_TOL = {"compress_all", "contract_boundary", "contract_hotrg", "gauge_all_simple", "compress_all_tree",
+                  "compress_all_1d", "compress_all_simple", "compress_simplify", "contract_compressed", "fit",
+                  "gauge_all", "gauge_all_belief_propagation", "gauge_local", "insert_compressor_between_regions",
+                  "gate_with_mpo", "gate_with_submpo", "gate_sandwich_with_auto_swap", "contract_boundary_from",
+                  "contract_boundary_from_xmax", "contract_boundary_from_ymin", "contract_boundary_from_xmin",
+                  "contract_boundary_from_ymax", "contract_ctmrg", "contract_mps_sweep", "coarse_grain_hotrg"}
+
+
+def is_number(v):
+    return isinstance(v, (int, float, complex, np.number)) and not isinstance(v, bool) or (isinstance(v, np.ndarray) and v.ndim == 0)
+
+
+def as_number(v):
+    """the scalar a result denotes: a number, or a tensor / network without outer labels (None otherwise)"""
+    import quimb.tensor as qtn
+
+    if is_number(v):
+        return complex(v)
+    if isinstance(v, (qtn.Tensor, qtn.TensorNetwork)):
+        c = canon(v)
+        if c[1] == () and c[2] is not None:
+            return complex(np.asarray(c[2]).reshape(()))
+    return None
+
+
+def numbers_agree(a, b, tol):
+    return abs(a - b) <= tol * max(1.0, abs(a), abs(b))
+
 
 def one_case(ctx, owner, name, kind, x, args, kw, rng):
     desc = {"pair": f"{owner}.{name}", "receiver": kind, "args": repr(args)[:120], "kwargs": repr(kw)[:80]}
     import copy as _copy
+
+    import quimb as qu
+
+    def reseed():
+        if name in GLOBAL_SEEDED:
+            qu.seed_rand(ctx.seed + 4242)
 
     args0, kw0 = args, kw
     args, kw = _copy.deepcopy((args0, kw0))
@@ -486,6 +658,7 @@ def one_case(ctx, owner, name, kind, x, args, kw, rng):
     fp_args = [fingerprint(a) for a in arg_objs]
     ctx.bump("argument_objects_fingerprinted", len(arg_objs))
     try:
+        reseed()
         r_plain = plain(*args, **kw_plain)
     except Exception as e:
         ctx.bump("recipe_rejected")
@@ -504,6 +677,7 @@ def one_case(ctx, owner, name, kind, x, args, kw, rng):
     args_in, kw_in = _copy.deepcopy((args0, kw0))
     kw_in = {k: v for k, v in kw_in.items() if k != "inplace"}
     try:
+        reseed()
         r_in = getattr(y, name + "_")(*args_in, **kw_in)
     except Exception as e:
         ctx.violation(f"inplace_raises:{owner}.{name}", f"{owner}.{name}_ raised {type(e).__name__} where the plain spelling succeeded",
@@ -523,7 +697,16 @@ def one_case(ctx, owner, name, kind, x, args, kw, rng):
 
     seq_ok = (isinstance(r_plain, (tuple, list)) and isinstance(res_in, (tuple, list)) and len(r_plain) == len(res_in)
               and tn_like(r_plain) and len(tn_like(r_plain)) == len(r_plain) and len(tn_like(res_in)) == len(res_in))
-    if seq_ok or (isinstance(r_plain, (qtn.Tensor, qtn.TensorNetwork)) and isinstance(res_in, (qtn.Tensor, qtn.TensorNetwork))):
+    if name in RANDOMISED:
+        ctx.bump("plain_vs_inplace_skipped_randomised")
+    elif is_number(r_plain):
+        # the plain spelling returns the contracted value; the in-place spelling returns it too or leaves it as the
+        # (label-free) network it contracted the receiver to
+        v_in = as_number(res_in)
+        ctx.bump("scalar_result_compared" if v_in is not None else "scalar_result_not_comparable")
+        if v_in is not None and not numbers_agree(complex(r_plain), v_in, 1e-8):
+            ctx.violation(f"plain_vs_inplace:{owner}.{name}", f"{owner}.{name}(x) = {complex(r_plain)!r} but {name}_(copy of x) denotes {v_in!r}", desc)
+    elif seq_ok or (isinstance(r_plain, (qtn.Tensor, qtn.TensorNetwork)) and isinstance(res_in, (qtn.Tensor, qtn.TensorNetwork))):
         try:
             same = canon_eq(canon(r_plain), canon(res_in), labels=labels)
         except Exception as e:
@@ -532,14 +715,22 @@ def one_case(ctx, owner, name, kind, x, args, kw, rng):
         if not same:
             ctx.violation(f"plain_vs_inplace:{owner}.{name}", f"{owner}.{name}(x) differs from {name}_(copy of x) as a labelled object", desc)
     # axis order: same call on a twin whose tensors store axes in another order
-    if name in ("transpose", "transpose_like", "moveindex", "astype"):
-        pass
+    if name in AXIS_ORDER_DRAWS or name in RANDOMISED:
+        ctx.bump("axis_twin_skipped_randomised")
+        if len(ctx.samples) < 4:
+            ctx.sample(desc)
+        return
     try:
         x2 = permute_axes(x, rng)
         args2, kw2 = _copy.deepcopy((args0, kw0))
+        reseed()
         r2 = getattr(x2, name)(*args2, **kw2)
-        if isinstance(r_plain, (qtn.Tensor, qtn.TensorNetwork)) and isinstance(r2, (qtn.Tensor, qtn.TensorNetwork)):
-            tol = 1e-6 if name in ("compress_all", "contract_boundary", "contract_hotrg", "gauge_all_simple") else 1e-8
+        tol = 1e-6 if name in LOOSE_AXIS_TOL else 1e-8
+        if is_number(r_plain) and is_number(r2):
+            if not numbers_agree(complex(r_plain), complex(r2), tol):
+                ctx.violation(f"axis_order:{owner}.{name}", f"{owner}.{name} gives a different value when tensors store their axes in another order", desc)
+            ctx.bump("axis_twin_checked")
+        elif isinstance(r_plain, (qtn.Tensor, qtn.TensorNetwork)) and isinstance(r2, (qtn.Tensor, qtn.TensorNetwork)):
             if not canon_eq(canon(r_plain), canon(r2), tol=tol, labels=labels):
                 ctx.violation(f"axis_order:{owner}.{name}", f"{owner}.{name} gives a different labelled result when tensors store their axes in another order", desc)
             ctx.bump("axis_twin_checked")
